@@ -19,7 +19,7 @@ import (
 func init() {
 	core.Register(&core.Simple{
 		Id: "C09", Lvl: "exploration", Quick: 480, Thorough: 16000, PerBatch: 160, Width: 160, Timeout: 2400,
-		RuleText: "each case uploads one generated file (sizes 0..200 KiB, thorough up to 8 MiB; ASCII and Mac-Roman names; with/without resource fork; preserve-forks on/off) through a chain of 0-4 connection cuts (EOF or read error) followed by resume attempts until completion; cut offsets sweep every byte of the preamble+flattened header region across the cases of a run (case index modulo region length) and sample the data and resource-fork regions and hit every structural boundary (end of preamble, FILP header, INFO header, info fork, DATA header, data, resource-fork header) exactly and at +-1; after every cut the final name must be absent and the partial file equal to the data prefix delivered, the resume offset in field 203 must equal the partial's size, the completed file must equal the original and a later download must return it; after a quarter of the cuts another session attempts a resume with a damaged header (information fork shorter than any real one), which must neither publish nor change the partial. Other modes: upload onto an existing name (refused, untouched), a stale reference number after the name was taken, and a cut inside the resume branch of a folder upload. distinct = (mode, first cut region, number of cuts, size class, preserve flag); non-trivial = at least one cut or a refusal mode",
+		RuleText: "each case uploads one generated file (sizes 0..200 KiB, thorough up to 8 MiB; ASCII and Mac-Roman names; with/without resource fork; preserve-forks on/off) through a chain of 0-4 connection cuts (EOF or read error) followed by resume attempts until completion; cut offsets sweep every byte of the preamble+flattened header region across the cases of a run (case index modulo region length) and sample the data and resource-fork regions and hit every structural boundary (end of preamble, FILP header, INFO header, info fork, DATA header, data, resource-fork header) exactly and at +-1; after every cut the final name must be absent and the partial file equal to the data prefix delivered, the resume offset in field 203 must equal the partial's size, the completed file must equal the original and a later download must return it; after a quarter of the cuts another session attempts a resume with a damaged header (information fork shorter than any real one), which must neither publish nor change the partial. Other modes: an upload whose header announces a data fork of 2^31-1 .. 2^32-1 bytes and is cut after a few KB (nothing published, partial = what was delivered), upload onto an existing name (refused, untouched), a stale reference number after the name was taken, and a cut inside the resume branch of a folder upload. distinct = (mode, first cut region, number of cuts, size class, preserve flag); non-trivial = at least one cut or a refusal mode",
 		Case:     runCase,
 	})
 }
@@ -56,6 +56,10 @@ func runCase(c *core.Case) {
 		mode = "stale-ref"
 	case 11:
 		mode = "folder-resume-cut"
+	case 8:
+		if c.Index%24 == 8 {
+			mode = "huge-declared"
+		}
 	}
 	size := core.Pick(r, []int{0, 1, 2, 100, 511, 512, 513, 4096, 32768, 32769, 70000, 200000})
 	if r.Chance(1, 3) {
@@ -148,6 +152,38 @@ func runCase(c *core.Case) {
 		return
 	case "folder-resume-cut":
 		folderResumeCut(c, srv, cl, name, disk, data)
+		return
+	case "huge-declared":
+		// the header announces a data fork around the 2 GiB / 4 GiB marks; the client delivers a little of it and the
+		// connection dies: nothing may appear under the final name, the partial holds what was delivered
+		declared := core.Pick(r, []int64{1<<31 - 1, 1 << 31, 1<<31 + 1, 1<<32 - 1})
+		c.Describe(fmt.Sprintf("huge-declared/%d", declared), map[string]any{"mode": mode, "declared_data_bytes": declared})
+		u := xfer.RequestUpload(cl, name, path, int(declared), false)
+		if !u.OK {
+			c.Unsure("upload request refused: %v", u.Reply)
+			return
+		}
+		sent := r.Bytes(1 + r.Intn(5000))
+		hdr := xfer.UploadStream(name, comment, nil, nil) // header for an empty data fork ...
+		hdr[len(hdr)-4], hdr[len(hdr)-3], hdr[len(hdr)-2], hdr[len(hdr)-1] = byte(declared>>24), byte(declared>>16), byte(declared>>8), byte(declared) // ... whose DATA fork size is then set
+		t := refclient.OpenTransfer(srv, "10.9.1.1:7")
+		t.Conn.Send(rc.Preamble(u.Ref, int(declared&0x7fffffff)))
+		t.Conn.Send(append(hdr, sent...))
+		t.Conn.CloseWrite()
+		select {
+		case <-t.Conn.Done:
+		case <-time.After(xfer.TransferWatchdog):
+			c.Unsure("handler did not return after the cut")
+			return
+		}
+		c.Count("huge_declared_uploads_cut", 1)
+		if exists(final) {
+			c.Fail("C09/huge-declared/final-name-present", "an upload announcing %d data bytes was cut after %d: the final name %q exists with %d bytes", declared, len(sent), name, len(readOrNil(final)))
+			return
+		}
+		if p := readOrNil(partial); !bytes.Equal(p, sent) {
+			c.Fail("C09/huge-declared/partial-differs", "an upload announcing %d data bytes was cut after %d: the partial file holds %d bytes (equal prefix: %v)", declared, len(sent), len(p), bytes.HasPrefix(sent, p))
+		}
 		return
 	}
 
@@ -336,6 +372,9 @@ func runCase(c *core.Case) {
 	hdr, err := rc.ParseFlatHeader(run.Out)
 	if err != nil || len(run.Out) < hdr.HeaderLen+len(data) || !bytes.Equal(run.Out[hdr.HeaderLen:hdr.HeaderLen+len(data)], data) {
 		c.Fail("C09/download-after-upload/differs", "a later download does not return the uploaded bytes (header err %v)", err)
+	} else if preserve && !bytes.Equal(hdr.Info.Comment, comment) {
+		// with fork preservation on, the information fork the client sent is stored and comes back with the file
+		c.Fail("C09/download-after-upload/info-fork", "fork preservation is on: the upload carried the comment %q, a later download returns the comment %q (name %q)", comment, hdr.Info.Comment, hdr.Info.Name)
 	}
 	c.Count("completed_uploads", 1)
 }
